@@ -62,3 +62,9 @@ def callee_name(v) -> str:
     if isinstance(v, Builtin):
         return v.name
     return repr(v)
+
+
+def mk_material(interp: Interp, **kw) -> Obj:
+    """Instantiate fdtdx.materials.Material through its own __init__ (normalisation included)."""
+    ci = interp.index.cls("fdtdx.materials.Material")
+    return interp.instantiate(ci, [], kw)
